@@ -81,6 +81,11 @@ class AsyncEngine(BaseEngine):
             transition = self._initial_transition(trigger_data)
             await self._activate(trigger_data, transition)
             return self._sentinel
+        if trigger_data is self._activation:
+            # Our own activation trigger, queued while the model was empty, found a state that
+            # was stored in the meantime (e.g. the record was loaded after an async machine
+            # had been created): that state is resumed, nothing runs.
+            return self._sentinel
 
         state = self.sm.current_state
         for transition in state.transitions:
